@@ -77,6 +77,13 @@ def k_images(order):
                                                 unified=(i == 2), av=(["Workstation", "Client", "Atomic"] if i == 2 else ())))
         if i == 1:
             m.add("Server", "ppc64le", samples.image(m, path="p.iso", subvariant="P"))
+        if i == 1:
+            # the same path again in a cell of its own variant ...
+            m.add("Alpha", "x86_64", samples.image(m, path="shared/name.iso", subvariant="A", itype="live", sums={"sha256": "e" * 64}))
+        if i == 3:
+            # ... and another image with that path in yet another variant (paths are distinct per cell only); which of the two
+            # variants is created first depends on the history
+            m.add("Beta", "x86_64", samples.image(m, path="shared/name.iso", subvariant="B", itype="cd", sums={"sha256": "f" * 64}))
     return m
 
 
@@ -87,6 +94,12 @@ def k_rpms(order):
     pk = ["bash", "zsh", "awk", "Xorg", "0ad"]
     for i in order:
         n = pk[i - 1]
+        if i == 2 and list(order).index(2) < list(order).index(1):
+            # (in the histories where part 2 comes before part 1:) a refused call on the way (a source package name without epoch) into a tree that gets nothing else: not content
+            try:
+                m.add("Workstation", "s390x", "%s-0:1-1.x86_64" % n, "p/%s.rpm" % n, None, "binary", "%s-1-1.src" % n)
+            except ValueError:
+                pass
         m.add("Server" if i % 2 else "Client", "x86_64" if i < 4 else "ppc64le", "%s-0:1-1.x86_64" % n, "p/%s.rpm" % n, None, "binary",
               "%s-0:1-1.src" % (n if i != 2 else "bash"))
     return m
